@@ -827,6 +827,43 @@ def wrapper_capture_twins():
     return out
 
 
+def fragment_twins():
+    """Pieces of an invocation that reach the macro as `$e:expr` fragments of a caller's macro_rules (None-delimited groups, which
+    the compiler does not treat as parentheses in macro output): a fragment that binds weaker than a method call must keep its
+    grouping — as an initial value (`$e ..pow(2)` with `$e = 1 + 2`), inside an operand (`|v| v + $e` with `$e = 1 << 2`), as a
+    whole operand. And `let name =` in front of values that a Rust `let` expression would not take (`a || b`, a struct literal)."""
+    out = []
+    cases = [
+        # (macro_rules head, body with $-params, call arguments, reference expression)
+        ("($e:expr)", "join! { $e ..pow(2) }", "1u32 + 2u32", "(1u32 + 2u32).pow(2)"),
+        ("($e:expr)", "join! { $e ..abs() }", "-7i32", "(-7i32).abs()"),
+        ("($e:expr)", "join! { $e ..count_ones() }", "300u32 as u8", "(300u32 as u8).count_ones()"),
+        ("($e:expr)", "join! { $e |> |v| { z(1, &v); v + 1 } =>[] Vec<u32> }", "0u32..3", "(0u32..3).map(|v| { z(1, &v); v + 1 }).collect::<Vec<u32>>()"),
+        ("($e:expr)", "join! { Some(1u32) |> |v| { z(1, &v); v + $e } }", "1 << 2", "Some(1u32).map(|v| { z(1, &v); v + (1 << 2) })"),
+        ("($e:expr)", "join! { Some(2u32) |> |v| { z(1, &v); let w = v * $e; w } }", "1 + 2", "Some(2u32).map(|v| { z(1, &v); let w = v * (1 + 2); w })"),
+        ("($e:expr)", "try_join! { Some(2u32) => |v| { z(1, &v); Some(v - $e) }, Some(1u32) }", "3 - 2", "{ z(1, &2u32); Some((2u32 - (3 - 2), 1u32)) }"),
+        ("($e:expr, $f:expr)", "join_spawn! { Some(1u32) |> $f, Some($e * 2) }", "1u32 + 1, |v| v + 1", "(Some(1u32).map(|v| v + 1), Some((1u32 + 1) * 2))"),
+        ("($a:expr, $b:expr)", "join! { let any = $a || $b -> |v: bool| { z(1, &v); !v }, 3u32 ~-> { let k = any; move |v: u32| if k { v } else { v + 1 } } }", "false, false",
+         "{ let any = (|v: bool| { z(1, &v); !v })(false || false); (any, 3u32) }"),
+        ("()", "{ struct P { x: u32 } let base = P { x: 7 }; join! { let p = P { ..base } -> |p: P| { z(1, &p.x); p.x }, let q = 1 > 2 || 3 > 2, 3u32 ~-> { let k = p; move |v: u32| v + k } } }", "",
+         "{ z(1, &7u32); (7u32, true, 10u32) }"),
+        ("()", "try_join! { let ok = 1 < 2 && 2 < 3 -> |b: bool| { z(1, &b); if b { Some(1u8) } else { None } }, Some(2u8) ~|> { let k = ok.unwrap(); move |v| v + k } }", "",
+         "{ z(1, &true); Some((1u8, 3u8)) }"),
+    ]
+    for (head, body, args, ref) in cases:
+        kind = body.split("!")[0].split()[-1].strip("{ ") if "!" in body else "join"
+        kind = [k for k in ("try_join", "join_spawn", "join") if (k + "!") in body][0]
+
+        def mk(pid, head=head, body=body, args=args, ref=ref, kind=kind):
+            m = "pub fn m_%d() -> String { macro_rules! __fr { %s => { %s } } let __res = __fr!(%s); dbg(__res) }" % (pid, head, body, args)
+            r = "pub fn r_%d() -> String { let __res = %s; dbg(__res) }" % (pid, ref)
+            ent = "Twin { id: %d, kind: %s, m: m_%d, r: r_%d, srcs: &[], branches: &[(1, 3)], tags: %s, text: %s, reference: %s, max_id: 4 }" % (
+                pid, rs(kind), pid, pid, rs("scope,sp:expr_fragment_or_let_value"), rs("__fr!(%s) with __fr = %s => { %s }" % (args, head, body)), rs(ref))
+            return m + "\n" + r, ent
+        out.append(LiteralTwin(kind, ["scope"], mk))
+    return out
+
+
 def render_prog(p, mode="twin"):
     """Returns (source of m_N and r_N, twin table entry) or None if the program cannot be rendered for its kind."""
     if isinstance(p, LiteralTwin):
@@ -1372,7 +1409,7 @@ def build_corpus(tier, seed):
         kind = ALL_KINDS[tries % 12] if rng.random() < 0.6 else rng.choice(SYNC_KINDS)
         length = rng.choice([0, 1, 2, 3, 4, 5, 6, 8] if tier == "quick" else [0, 1, 2, 3, 4, 6, 8, 12, 16])
         keep(gen_prog(0, rng, kind, length))
-    for lt in wrapper_capture_twins():
+    for lt in wrapper_capture_twins() + fragment_twins():
         lt.id = pid[0]
         pid[0] += 1
         progs.append(lt)
